@@ -169,6 +169,16 @@ def ex_callers(ctx, mags, bins):
     inside = mags >= bins[0]
     if inside.all() and n:
         ctx.call(cat.get_mag_idx)
+        # the open-ended top bin through the space-magnitude gridding of the catalog (event at (2.0, 1.0) lies in cell 1): every magnitude at
+        # or above the last edge - however far - is counted in the last bin, and the magnitude marginal equals magnitude_counts
+        ok_s, smc, tb_s = ctx.call(cat.spatial_magnitude_counts)
+        ctx.mon("catalog.spatial_magnitude_counts~magnitude_counts", 1)
+        if not ok_s:
+            ctx.violate("spatial_magnitude_counts raised on magnitudes at / above the lowest edge", {"exec": "callers", "args": {"mags": mags, "bins": bins}},
+                        observed=repr(smc), tags={"api": "spatial_magnitude_counts", "above_last_edge_plus_step": bool(bins.size > 1 and (mags >= bins[-1] + (bins[1] - bins[0])).any())})
+        elif ok and not numpy.array_equal(numpy.asarray(smc).sum(axis=0), numpy.asarray(res)):
+            ctx.violate("spatial_magnitude_counts magnitude marginal != magnitude_counts", {"exec": "callers", "args": {"mags": mags, "bins": bins}},
+                        observed=numpy.asarray(smc).sum(axis=0), expected=res, tags={"api": "spatial_magnitude_counts"})
     # discretize (closed and open)
     ok, res, tb = ctx.call(calc.discretize, mags, bins, right_continuous=True)
     if ok and (mags >= bins[0]).all():
@@ -360,7 +370,7 @@ def run(ctx):
         run_repo_suite(ctx, ["test_calc.py", "test_spatial.py", "test_catalog.py", "test_regions.py", "test_forecast.py", "test_evaluations.py",
                              "test_magnitude_tests.py", "test_adaptiveHistogram.py"])
 
-META["added"] = "Added: awkward start/step pairs (first edge small against the step, non-binary steps), explicit-tol grids, spacings >= 2 (subnormals next to a 0.0 edge), generator check over awkward steps, the repository's own test-suite as a workload under the contract (thorough). generator called again after an in-place edit of its previous result."
+META["added"] = "Added: awkward start/step pairs (first edge small against the step, non-binary steps), explicit-tol grids, spacings >= 2 (subnormals next to a 0.0 edge), generator check over awkward steps, the repository's own test-suite as a workload under the contract (thorough). generator called again after an in-place edit of its previous result. open top bin through a catalog's spatial_magnitude_counts."
 MANIFEST = {
     "technique": "runtime contract (post-condition) on the real bin1d_vec/cleaner_range at every call site + exact-comparison reference bin over generated edge-adjacent probes",
     "level_text": "Every call of bin1d_vec made by the workload and by the library's own call sites is checked by an exact-comparison oracle (two hard clauses + documented round-off band); ~1e7 (quick) to ~1e9 (thorough) probe values concentrated on edges +-ulps over thousands of grids, both modes, scalar/array/int/float32 inputs; edge generators compared element-wise with the exact Decimal grid. Held-on-observed, not a proof: the float domain is sampled.",
